@@ -9,6 +9,8 @@ package main
 //	observed ((conn REPLY ((MS TYPE) ...) CLOSEDAT LOGOUTS TRAT ANSWERAT HANGUPAT) ...)   times in ms since the Logon reply
 //	  silent: the peer says nothing after its Logon
 //	  alive : the peer sends a Heartbeat every 0.4 H for 3 H, then hangs up
+//	  slowlogon: the session is an INITIATOR; the peer answers its Logon 1.15 H late, then stays alive for 3 H (times since
+//	          the initiator's own Logon)
 //	  late  : the peer is silent until our TestRequest, answers it 1.1 H later (after the moment our own heartbeat timer
 //	          fired while the answer was pending), then stays alive for 3 H, then hangs up
 
@@ -71,7 +73,13 @@ func runClockCase(kind string, hSec, conns int) Sx {
 	n := atomic.AddInt32(&clockSerial, 1)
 	us, peer := "ACC"+strconv.Itoa(int(n)), "INI"+strconv.Itoa(int(n))
 	app := &clockApp{}
-	v, err := quickfix.NewVerifClock(us, peer, app)
+	var v *quickfix.VerifClock
+	var err error
+	if kind == "slowlogon" {
+		v, err = quickfix.NewVerifClockInitiator(us, peer, hSec, app)
+	} else {
+		v, err = quickfix.NewVerifClock(us, peer, app)
+	}
 	if err != nil {
 		return L(Sym("error"), Str(err.Error()))
 	}
@@ -89,8 +97,10 @@ func runClockCase(kind string, hSec, conns int) Sx {
 			obs = append(obs, L(Sym("conn"), Bool(false), List{}, Int(-1), Int(int(atomic.LoadInt32(&app.logouts))), Int(-1), Int(-1), Int(-1)))
 			break
 		}
-		push("A", fmt.Sprintf("98=0\x01108=%d\x01", hSec))
-		// wait for the Logon reply
+		if kind != "slowlogon" {
+			push("A", fmt.Sprintf("98=0\x01108=%d\x01", hSec))
+		}
+		// wait for the Logon reply (slowlogon: for the initiator's own Logon)
 		var t0 time.Time
 		reply := false
 		deadline := time.After(3 * time.Second)
@@ -176,6 +186,19 @@ func runClockCase(kind string, hSec, conns int) Sx {
 		case "alive":
 			alive(3 * H)
 			hangup()
+		case "slowlogon":
+			// the peer answers the initiator's Logon 1.15 intervals late (the initiator's heartbeat timer, armed by its own
+			// Logon, has fired in the meantime), then stays alive
+			time.Sleep(H * 115 / 100)
+			if !isClosed() {
+				mu.Lock()
+				answerAt = ms(time.Now())
+				mu.Unlock()
+				push("A", fmt.Sprintf("98=0\x01108=%d\x01", hSec))
+				time.Sleep(H * 4 / 10)
+				alive(3 * H)
+			}
+			hangup()
 		case "late":
 			select {
 			case <-trSeen:
@@ -213,9 +236,9 @@ func genClock(c *Ctx) {
 		kind     string
 		h, conns int
 	}
-	cases := []cs{{"silent", 1, 3}, {"alive", 1, 2}, {"late", 2, 2}}
+	cases := []cs{{"silent", 1, 3}, {"alive", 1, 2}, {"late", 2, 2}, {"slowlogon", 2, 1}}
 	if c.Tier == "thorough" {
-		cases = append(cases, cs{"silent", 2, 3}, cs{"alive", 2, 3}, cs{"late", 2, 3}, cs{"late", 3, 2}, cs{"silent", 1, 4})
+		cases = append(cases, cs{"silent", 2, 3}, cs{"alive", 2, 3}, cs{"late", 2, 3}, cs{"late", 3, 2}, cs{"silent", 1, 4}, cs{"slowlogon", 1, 1})
 	}
 	if c.N < len(cases) {
 		cases = cases[:c.N]
